@@ -43,7 +43,16 @@ const Type& FunctorExpression::type(Context& ctx) const
 Value& FunctorExpression::value(Context& ctx) const
 {
   auto env = ctx.functorManager().createEnv(ctx, _id, _args);
-  env.functor().body->doit(env.context());
+  try
+  {
+    env.functor().body->doit(env.context());
+  }
+  catch (...)
+  {
+    /* the interrupted context must not be reused for a next call */
+    env.discard();
+    throw;
+  }
   Value * ret = env.context().dropReturned();
   if (ret != nullptr)
   {
